@@ -34,13 +34,14 @@ def run(tier):
     c = Counter()
     # ---- (1) runtime: every block of the supported vocabulary terminates within the budget, without an exception
     blocks = gen.blocks(sd * 71 + 9, 300 if tier == "quick" else 5000)
-    extreme = gen.fold_corpus([0, 1, 2, 255, 256, 2 ** 255, 2 ** 256 - 1]) + gen.stack_corpus() + \
+    fc = gen.fold_corpus([0, 1, 2, 255, 256, 2 ** 255, 2 ** 256 - 1])
+    if tier == "quick":
+        fc = rng.sample(fc, 250)
+    extreme = fc + gen.stack_corpus() + \
         ["NOT NOT", "DUP1 NOT NOT ADD", " ".join(["ISZERO"] * 40), " ".join(["DUP1"] * 20 + ["ADD"] * 19), "PUSH1 0x0 PUSH1 0x5 DIV",
          "PUSH1 0x0 PUSH1 0x5 MOD", "PUSH32 0x" + "f" * 64 + " PUSH1 0x3 EXP", "PUSH32 0x" + "f" * 64 + " PUSH32 0x" + "f" * 64 + " EXP",
          "PUSH32 0x" + "f" * 64 + " DUP1 SHL", "PUSH1 0x5 PUSH1 0x3 PUSH1 0x4 ADDMOD", "PUSH1 0x0 PUSH1 0x3 PUSH1 0x4 MULMOD",
          " ".join("SWAP%d" % k for k in range(1, 17)), " ".join(["DUP16"] * 3 + ["POP"] * 3)]
-    if tier == "quick":
-        extreme = rng.sample(extreme, 400) + extreme[-13:]
     osets = [["-greedy"], ["-greedy", "-size"], ["-greedy", "-storage"]]
     runs = e2e.run_optimize(blocks, osets, assign="rotate", timeout=BUDGET_S + 10) + e2e.run_optimize(extreme, [["-greedy"]], assign="all", timeout=BUDGET_S + 10)
     for text, opts, e, st in runs:
